@@ -8,7 +8,7 @@ NOT_APPLICABLE = {}
 PROPS = {
     'C01': {
         'modules': ['C01', 'TieWrite', 'TieRead', 'TieRun', 'TieCodec', 'TieFsock', 'FsockProps'],
-        'families': [('fs', 300, 8000), ('ep:pipe', 400, 4000), ('ep:sizes', 400, 8000), ('tp', 100, 3000)],
+        'families': [('ep:backpressure', 500, 10000), ('fs', 300, 8000), ('ep:pipe', 400, 4000), ('ep:sizes', 400, 8000), ('tp', 100, 3000)],
         'rule': 'message sequences (text, binary, ping, pong) with payload sizes 0, 1, 125/126/127, 4095..4097, 65535/65536/65537, 70000 written by a '
                 'real endpoint of either role under partial writes and WouldBlock, its real wire output read by a real endpoint of the other role '
                 'under several segmentations, pre-read splits and six read-buffer sizes; read list compared with written list',
